@@ -9,7 +9,6 @@ VARIABLE x
 Bnd == {0, 127, 128, 2047, 2048, 4095, 4096, 55295, 57344, 65535, 65536, 262143, 262144, 1114111}
 Near == UNION {{b - 3, b - 2, b - 1, b, b + 1, b + 2, b + 3} : b \in Bnd}
 QuickSet == {c \in Near \cup {c0 * 977 : c0 \in 0..1140} : c >= 0 /\ c <= 1114111 /\ IsScalar(c)}
-FullSet  == {c \in 0..1114111 : IsScalar(c)}
 Good(c) ==
   LET b == Enc(c)
       d == DecodeStep(b, 0) IN
@@ -17,7 +16,9 @@ Good(c) ==
   /\ d.end = Len(b) /\ d.cp = c /\ ~d.oob /\ ~d.bad
   \* embedded after another character, offsets are absolute
   /\ DecodeAll(<<97>> \o b \o <<97>>) = <<<<1, 97>>, <<1 + Len(b), c>>, <<2 + Len(b), 97>>>>
-ASSUME \A c \in (IF Full THEN FullSet ELSE QuickSet) : Good(c)
+\* (the full range is an interval, which TLC does not enumerate into a set: its explicit sets are limited to 10^6 elements)
+ASSUME IF Full THEN \A c \in 0..1114111 : IsScalar(c) => Good(c)
+       ELSE \A c \in QuickSet : Good(c)
 \* a truncated encoding makes the decoder pull past the end: the ghost `oob` is what C07 excludes
 ASSUME \A c \in {233, 19990, 128512} : DecodeStep(SubSeq(Enc(c), 1, Len(Enc(c)) - 1), 0).oob
 Init == x = 0
